@@ -76,6 +76,13 @@ Theorem C12_masked_cells_same_vertices : forall (m : list bool) (vs : list Z) (c
 Proof. exact (@masked_cell_same_vertices Z). Qed.
 Print Assumptions C12_masked_cells_same_vertices.
 
+(* The cell_mask keyword (CellObject.copy; [CCells] / [CBoth] in the model): the selected cells, and the values of CELL data
+   reduced by it, keep their content at their rank among the selected ones. *)
+Theorem C12_cell_mask_cells : forall (cm : list bool) (cs : list (list nat)) i,
+  nth_error cm i = Some true -> nth_error (compress cm cs) (rank cm i) = nth_error cs i.
+Proof. exact (@masked_vertices (list nat)). Qed.
+Print Assumptions C12_cell_mask_cells.
+
 Theorem C12_masked_values : forall (nd : option Z) m l i,
   length m = length l -> i < length l ->
   nth_error (fillmask nd m l) i = Some (if nth i m false then nth i l None else nd).
